@@ -3,6 +3,7 @@
 package lab
 
 import (
+	"bytes"
 	"crypto/sha1"
 	"encoding/hex"
 	"encoding/json"
@@ -176,6 +177,8 @@ func mkC13() *Scenario {
 			lsize = maxMeta
 		case 5:
 			lsize = maxMeta + 1
+		case 6:
+			lsize = 1<<32 + int64(len(g.InfoBytes)) // far above the maximum; its low 32 bits are the true size
 		}
 		w.Vars["lsize"] = lsize
 		L.sendExtHandshake(lsize)
@@ -203,10 +206,10 @@ func mkC13() *Scenario {
 		}
 		add("L:right-block", func(w *World) { L.sendData(next, total, blockOf(g.InfoBytes, next)); pop() })
 		add("L:garbage-right-size", func(w *World) {
-			b := append([]byte{}, blockOf(make([]byte, max(int(lsize), len(g.InfoBytes))), next)...)
-			for i := range b {
-				b[i] = 'z'
-			}
+			// a block of the size the announced total implies for this index (never materialise the whole total)
+			tot := max(lsize, int64(len(g.InfoBytes)))
+			n := min(int64(16384), max(tot-int64(next)*16384, 0))
+			b := bytes.Repeat([]byte{'z'}, int(n))
 			L.sendData(next, total, b)
 			pop()
 		})
@@ -299,6 +302,9 @@ func mkC13() *Scenario {
 	}
 	sc.Final = func(w *World) {
 		s := w.Tor.VerifState()
+		if arg.Honest && !s.HasInfo && s.LastError != "" {
+			w.Failf("C13.stopped-by-liar", "an honest peer offered the metadata, but what the other peer sent stopped the whole torrent with error %q (status %s)", s.LastError, s.Status)
+		}
 		if arg.Honest && H.Connected() && !s.HasInfo && s.LastError == "" {
 			w.Failf("C13.honest-not-adopted", "an honest peer offering the metadata is connected but the metadata was not adopted (status %s, info downloaders %d, H requests seen %d, L connected %v)", s.Status, s.InfoDownloaders, H.allReqs, L.Connected())
 		}
@@ -316,7 +322,7 @@ func mkC13() *Scenario {
 func TestC13Lab(t *testing.T) {
 	ServeIfWorker(t)
 	rep := core.NewReport("C13", "lab-magnet", "model_checking")
-	rep.Rule = "torrent added by magnet link; liar L (and optionally honest H) speak ut_metadata; metadata of 1..3 blocks; L announces size {true, +1, -1, 0, max, max+1}; every history of <= depth operations over {right block, garbage of right size, wrong size, unrequested index, duplicate, index 2^32-1, total_size lie, reject, request, second ext handshake}; then H serves honestly; ParallelMetadataDownloads {1,2}; StopAfterMetadata on/off"
+	rep.Rule = "torrent added by magnet link; liar L (and optionally honest H) speak ut_metadata; metadata of 1..3 blocks; L announces size {true, +1, -1, 0, max, max+1, 2^32+true}; every history of <= depth operations over {right block, garbage of right size, wrong size, unrequested index, duplicate, index 2^32-1, total_size lie, reject, request, second ext handshake}; then H serves honestly; ParallelMetadataDownloads {1,2}; StopAfterMetadata on/off"
 	rep.Assumptions = []string{"two peers; metadata content fixed per block count", "SHA-1 collisions outside the alphabet"}
 	depth := 3
 	if core.Thorough() {
@@ -326,7 +332,7 @@ func TestC13Lab(t *testing.T) {
 	for _, blocks := range []int{1, 2, 3} {
 		for _, par := range []int{1, 2} {
 			for _, honest := range []bool{false, true} {
-				for lsize := 0; lsize <= 5; lsize++ {
+				for lsize := 0; lsize <= 6; lsize++ {
 					d := depth
 					if lsize != 0 {
 						d = 2
